@@ -43,3 +43,32 @@ theorem C05_orphan_leaf (E : Env) (roots : List Tree) :
     (∀ t ∈ makeTrunk E roots, t.kids = [] → E.indepOrphan t = true) ∧
     (∀ t ∈ roots, t ∉ makeTrunk E roots → t.kids = [] ∧ E.indepOrphan t = false) :=
   ⟨ContourP.makeTrunk_leaves_pass E roots, ContourP.makeTrunk_dropped E roots⟩
+
+/-! ## without pruning: exactly one leaf per plateau-aware regional maximum
+
+`P20.SamePlateau E order p q`: `q` is reachable from `p` through above-threshold pixels that all
+carry the value of `p`.  `P20.RegMax E order p`: `p` is above threshold and no pixel of its
+plateau has a brighter above-threshold neighbour.  Hypotheses: symmetric adjacency, duplicate-free
+non-increasing order (ties allowed), no pruning (`E.indep` constantly true). -/
+
+/-- **C05 (each leaf's peak lies in a regional maximum, and its peak pixels are one plateau).** -/
+theorem C05_leaf_peak_regmax (E : Env) (hsym : SymmAdj E) (order : List Nat) (hnd : order.Nodup)
+    (hsorted : SortedDesc E order) (hno : ∀ t p v, E.indep t p v = true) :
+    (∀ t ∈ preL (run E order), t.kids = [] → ∀ p ∈ t.own, E.val p = t.vmax E.val → P20.RegMax E order p) ∧
+    (∀ t ∈ preL (run E order), t.kids = [] → ∀ p ∈ t.own, ∀ q ∈ t.own, E.val p = t.vmax E.val →
+        E.val q = t.vmax E.val → P20.SamePlateau E order p q) :=
+  ⟨P20.leaf_peak_regmax E hsym order hnd hsorted hno, P20.leaf_peak_one_plateau E hsym order hnd hsorted hno⟩
+
+/-- **C05 (distinct leaves peak in distinct regional maxima).** -/
+theorem C05_leaves_distinct_maxima (E : Env) (hsym : SymmAdj E) (order : List Nat) (hnd : order.Nodup)
+    (hsorted : SortedDesc E order) (hno : ∀ t p v, E.indep t p v = true) :
+    ∀ t ∈ preL (run E order), ∀ t' ∈ preL (run E order), t.kids = [] → t'.kids = [] → t ≠ t' →
+      ∀ p ∈ t.own, ∀ q ∈ t'.own, E.val p = t.vmax E.val → E.val q = t'.vmax E.val → ¬ P20.SamePlateau E order p q :=
+  P20.leaves_distinct_maxima E hsym order hnd hsorted hno
+
+/-- **C05 (every regional maximum has its leaf).** Together with the two theorems above: the map
+leaf ↦ plateau of its peak is a bijection between leaves and regional maxima. -/
+theorem C05_regmax_has_leaf (E : Env) (hsym : SymmAdj E) (order : List Nat) (hnd : order.Nodup)
+    (hsorted : SortedDesc E order) (hno : ∀ t p v, E.indep t p v = true) :
+    ∀ p, P20.RegMax E order p → ∃ t ∈ preL (run E order), t.kids = [] ∧ p ∈ t.own ∧ E.val p = t.vmax E.val :=
+  P20.regmax_has_leaf E hsym order hnd hsorted hno
